@@ -269,6 +269,9 @@ pub struct InstructionGenerator {
     pub subprogram_info_repository: SubprogramInfoRepository,
     pub current_subprogram: ScopeName,
     pub linter_names: Names,
+    /// The program has an ON ERROR statement somewhere: an error trap installed by the
+    /// module or by one subprogram is in force in all of them.
+    traps_errors: bool,
 }
 
 impl InstructionGenerator {
@@ -279,11 +282,15 @@ impl InstructionGenerator {
             subprogram_info_repository,
             current_subprogram: ScopeName::Global,
             linter_names,
+            traps_errors: false,
         }
     }
 
     fn generate_unresolved(&mut self, program: Program) {
         let (global_statements, functions, subs) = Self::split_program(program);
+        self.traps_errors = Self::has_on_error(&global_statements)
+            || functions.iter().any(|f| Self::has_on_error(&f.element.body))
+            || subs.iter().any(|s| Self::has_on_error(&s.element.body));
         self.visit_global_statements(global_statements);
         self.visit_functions(functions);
         self.visit_subs(subs);
@@ -481,6 +488,41 @@ impl InstructionGenerator {
         }
     }
 
+    /// Checks if there is an ON ERROR statement in the given statements or in the
+    /// blocks nested in them.
+    fn has_on_error(statements: &Statements) -> bool {
+        statements
+            .iter()
+            .any(|Positioned { element, .. }| match element {
+                Statement::OnError(_) => true,
+                Statement::IfBlock(IfBlock {
+                    if_block,
+                    else_if_blocks,
+                    else_block,
+                }) => {
+                    Self::has_on_error(&if_block.statements)
+                        || else_if_blocks
+                            .iter()
+                            .any(|b| Self::has_on_error(&b.statements))
+                        || else_block.as_ref().is_some_and(Self::has_on_error)
+                }
+                Statement::SelectCase(select_case) => {
+                    select_case
+                        .case_blocks
+                        .iter()
+                        .any(|b| Self::has_on_error(b.statements()))
+                        || select_case
+                            .else_block
+                            .as_ref()
+                            .is_some_and(Self::has_on_error)
+                }
+                Statement::ForLoop(for_loop) => Self::has_on_error(&for_loop.statements),
+                Statement::While(block) => Self::has_on_error(&block.statements),
+                Statement::DoLoop(do_loop) => Self::has_on_error(&do_loop.statements),
+                _ => false,
+            })
+    }
+
     fn is_static_dim_type(dim_type: &DimType) -> bool {
         match dim_type {
             // a STRING * n holds its n characters from the start
@@ -517,7 +559,9 @@ impl InstructionGenerator {
     /// if its control flow can bypass one of their DIM statements.
     fn allocate_static_dims(&mut self, statements: &Statements) {
         let mut static_dims: Vec<DimList> = vec![];
-        let mut can_bypass = false;
+        // a trapped error in an earlier variable of a DIM statement skips the rest of it,
+        // wherever the trap was installed
+        let mut can_bypass = self.traps_errors;
         Self::collect_static_dims(statements, false, &mut static_dims, &mut can_bypass);
         if can_bypass {
             for dim_list in static_dims {
